@@ -26,6 +26,7 @@ type Job struct {
 	Trace     bool     `json:"trace,omitempty"`
 	KeepPlans int      `json:"keep_plans,omitempty"` // attach the plan to the first N results
 	StallS    int      `json:"stall_s,omitempty"`
+	Free      bool     `json:"free,omitempty"` // free-run mode (race detector build)
 }
 
 // No watchdog goroutine lives in the worker: a real-time timer would perturb the order in
@@ -61,6 +62,10 @@ func TestWorker(t *testing.T) {
 			p.Judge = job.Judge
 		}
 		_ = os.WriteFile(job.Out+".cur", []byte(p.JSON()), 0o644)
+		if job.Free {
+			p.Sched.Free = true
+			fmt.Fprintf(os.Stderr, "\nVERIF-PLAN %d %s\n", p.Seed, p.Family)
+		}
 		var res *Result
 		if p.Family == "c17lib" {
 			res = RunC17(t, p.Seed)
@@ -68,6 +73,14 @@ func TestWorker(t *testing.T) {
 		} else if p.Family == "c14sim" {
 			res = RunC14(t, p.Seed)
 			progress.Add(1)
+		} else if job.Free {
+			// a detected race fails the (sub)test; keep the worker going
+			t.Run(fmt.Sprintf("plan-%d", p.Seed), func(st *testing.T) {
+				res = RunPlan(st, p, job.Trace)
+			})
+			if res == nil {
+				res = &Result{Seed: p.Seed, Family: p.Family, Stats: Stats{Faults: map[string]int{}, Probes: map[string]int{}}}
+			}
 		} else {
 			res = RunPlan(t, p, job.Trace)
 		}
